@@ -15,16 +15,16 @@ LEVEL = {
  'C07': ("Theorems: product children = exactly the rejected positions/keys, each child = the element converter's own report, missing/extra exact, one sum child per member in order, tagged body only, leaves record the offending value; dict nodes under str-injectivity (finding N7 proved as negation). Tie: full tree correspondence + every node re-derived on the implementation by calling the element's own converter.", "8 C07"),
  'C08': ("Theorems about the renderer model (print_error with chain fusing and sum flattening, accepted as a terminating definition): reachable trees are well-formed (no dupKey under a sum), every leaf expectation / path key / missing / extra / duplicate / cause is mentioned, value shown (partial: sum nesting <= 2, finding D13 proved as negation). Tie: exact text of str(ConvertError) vs the model's segments.", "8 C08"),
  'C09': ("Theorem afterC_copy_id: in the state-passing model no pass changes its argument, for every converter tree and value at any depth, given the extracted fact that both tagged-union passes copy before pop (decide) and that the effect scan lists no other mutating call. PARTIAL: absence of other mutating statements rests on the syntactic scan + deep before/after snapshots in every scenario.", "8 C09"),
- 'C10': ("Theorems over ALL valid histories (adversarial allocator, drop, gc) and ALL thread interleavings of the cache machine: cached run = cache-less reference run (C10_transparent), order independence, schedules, LRU refinement; negation proved for an id-only key. Key form and lookup-or-build step are facts extracted from the source. PARTIAL: GIL atomicity assumed. Tie: random histories replayed on the real interpreter with dynamically created, collected and re-created types.", "8 C10"),
+ 'C10': ("Theorems over ALL valid histories (adversarial allocator, drop, gc) and ALL thread interleavings of the cache machine: cached run = cache-less reference run (C10_transparent), order independence, schedules, LRU refinement; negation proved for an id-only key. Key form and lookup-or-build step are facts extracted from the source. PARTIAL: GIL atomicity assumed. Tie: random histories replayed on the real interpreter with dynamically created, collected and re-created types (incl. dataclasses) and a long-lived handlers mapping that changes between calls; the looked-up converter must behave (parse, serialise a sample) like one freshly built.", "8 C10"),
  'C11': ("Theorems: union = firstOk (left-most accepting member), accept iff some member accepts, later members irrelevant, nesting = flattening, one diagnostic child per member, serialiser uses the left-most accepting member. Tie: each member run alone on the implementation and compared with the union.", "8 C11"),
  'C12': ("Theorems: dispatch by tag alone for the three layouts, body errors of the chosen variant only, bad/absent/unhashable tag is a ConvertError naming the tag (guards from extracted facts), duplicates refused at build, serialise/extract symmetry per layout. Tie: correspondence on tagged scenarios.", "8 C12"),
  'C13': ("Theorems: accept iff inner accepts and condition true on the converted value, raise = failure with cause, bundling, all/any/not with Python short-circuit order, stock conditions = arithmetic predicates from the extracted operators (decide), inclusive ranges, NaN, serialisation ignores conditions. PARTIAL: numpy shape/broadcast conditions not claimed.", "8 C13"),
  'C14': ("Theorems about the construction model (constructor = per-field convert, defaults fresh via call counter, set-record exact on all three paths, unchecked verbatim, hook runs once); K6 finding as negation. Tie: constructor / from_data / make_unchecked correspondence over all subsets of supplied fields.", "8 C14"),
  'C15': ("Decision-table theorems for name resolution and layouts over the processed-class model; make_field rules extracted. Tie: class processing compared field by field with the live __pane_info__.", "8 C15"),
  'C16': ("Theorems for ANY field value type: eq definition / equivalence, lexicographic order, trichotomy, order-equality consistency, eq => equal hash, repr; the extracted 16-row hash rule table equals CPython's own (decide); documented class options accepted. Tie: cmp/hash/copy/replace/setattr on generated classes.", "8 C16"),
- 'C17': ("Theorems about processClass (field order, override in place, kw-only reordering, typevar substitution composition, option inheritance facts). PARTIAL: single-inheritance chains. Tie: generated hierarchies vs live __pane_info__/signatures.", "8 C17"),
+ 'C17': ("Theorems about class processing: field order (positional first, keyword-only after, merged-spec order), override in place, type-variable substitution (unfolding, identity, composition, COMPLETENESS: no bound variable survives, also inside a subscripted dataclass used as a field type), parameter merge, option inheritance; for ANY number of bases via the MRO loop (C17_mro_names: names in MRO order at first occurrence; C17_mro_nearest: the nearest declaration wins with every later subscription applied), single inheritance as the special case. The C3 linearisation itself is an input. Tie: generated hierarchies (depth <= 4, generic re-parameterisation, nested generic field types, mixins, diamonds) vs live __pane_info__.", "8 C17, 13.1"),
  'C18': ("Theorems: precedence (field converter, call handlers, own class, enclosing classes, protocol/builtins, registered) from the extracted dispatch order and handler merge; reach at every depth; mapping-form exactness; defer on NotImplemented. Tie: tagging converters make the winning source readable on the implementation.", "8 C18"),
- 'C19': ("Composition theorem under explicit codec hypotheses + ownership facts extracted from open_file. PARTIAL: json/PyYAML/OS are assumptions validated by the run.", "8 C19"),
+ 'C19': ("Composition theorems: write then read = from_data of the normalised serialised form for every codec that round-trips representable data (whatever the formatting options do to the text); from_yaml_all = one conversion per document; ownership facts (path branch opens as UTF-8 and the with-block closes; caller's stream wrapped in nullcontext) decided over facts extracted from open_file. PARTIAL: json/PyYAML/TextIOWrapper/OS are hypotheses (CodecRT) validated by the run on every generated document and option vector. Tie: 10 sink/source kinds x options x caller-stream encodings on real files and streams; every file pane.io opens is observed (encoding, closed).", "8 C19, 13.1"),
  'C20': ("Theorems over unbounded snake names (abstract letters): canonical spelling per style, splitting recovers the words, reversible, idempotent, all style pairs, injective, refusal of unsplittable names, two-letter proviso is tight; the model's joiner IS the extracted _CONVERT_FNS table for every input (C20_model_is_source). PARTIAL: ASCII. Tie: rename/split correspondence incl. a malformed stream + canonical spelling / reversibility observed on the implementation.", "8 C20"),
 }
 TECH = "Lean 4 theorem (kernel-checked, re-decided against facts regenerated from the source) + differential correspondence model vs implementation"
@@ -54,7 +54,7 @@ def main(claimed, na_reasons):
         'engines': [{'name': 'lean4-model+extract+corr', 'path': 'lean/ tools/', 'serves_properties': sorted(claimed),
                      'kind_free_text': 'hand-written Lean 4 model + theorems; translator regenerating facts from the source; differential correspondence harness'}],
         'checks': checks,
-        'notes': 'See DESIGN.md. fix: commits in /repo repair 17 genuine defects (known_findings.json, status=fixed); status=known entries are printed as KNOWN-FINDING.',
+        'notes': 'See DESIGN.md. fix: commits in /repo repair 24 genuine defects (D1-D12, D14, D15, D17-D26; seven of them found by the checks themselves, DESIGN.md 13.3) (known_findings.json, status=fixed); status=known entries are printed as KNOWN-FINDING.',
         'not_applicable': [{'property_id': p, 'reason': r} for p, r in sorted(na_reasons.items())],
     }
     json.dump(m, open(os.path.join(VERIF, 'MANIFEST.json'), 'w'), indent=1)
